@@ -88,6 +88,7 @@ class Ctx(object):
         self.notes = []
         self.replaying = False
         self._shrinking = False
+        self._in_hyp = False
 
     # ----- bookkeeping
     def n(self, quick, thorough):
@@ -132,7 +133,7 @@ class Ctx(object):
             self.fail(case, message() if callable(message) else message)
 
     # ----- Hypothesis glue
-    def hyp(self, strategy, body, max_examples, shrink_budget=300):
+    def hyp(self, strategy, body, max_examples, shrink_budget=120):
         """Run body(case) over generated cases; on Violation, shrink and record (no raise)."""
         import hypothesis
         from hypothesis import given, settings, seed, HealthCheck, Phase
@@ -167,6 +168,7 @@ class Ctx(object):
                     state["best"] = v
                 raise
 
+        self._in_hyp = True
         try:
             t()
         except Violation as v:
@@ -184,6 +186,7 @@ class Ctx(object):
                 self.note("flaky under hypothesis: %s" % str(e)[:300])
         finally:
             self._shrinking = False
+            self._in_hyp = False
 
     def _confirm_and_record(self, v, body_for_case=None, rerun=None):
         """Flake filter: the shrunk case must fail again twice."""
@@ -191,6 +194,7 @@ class Ctx(object):
         fn = rerun
         if fn is not None:
             self._shrinking = True
+            self._in_hyp = True
             try:
                 for _ in range(2):
                     try:
@@ -199,6 +203,7 @@ class Ctx(object):
                         again += 1
             finally:
                 self._shrinking = False
+                self._in_hyp = False
             if again == 0:
                 self.inconclusive += 1
                 self.note("unreproduced failure: %s" % v.message[:300])
@@ -206,12 +211,17 @@ class Ctx(object):
         self.violations.append({"sub": self.sub, "case": v.case, "message": v.message})
 
     def guard(self, fn, *a):
-        """Run fn(*a) recording a Violation instead of propagating (for enumerations)."""
+        """Run fn(*a) recording a Violation instead of propagating (for enumerations). Inside a
+        Hypothesis body or a replay the Violation propagates, so that shrinking/replay see it."""
+        if self._in_hyp or self.replaying:
+            fn(*a)
+            return True
         try:
             fn(*a)
             return True
         except Violation as v:
-            self.violations.append({"sub": self.sub, "case": v.case, "message": v.message})
+            if len(self.violations) < 5:
+                self.violations.append({"sub": self.sub, "case": v.case, "message": v.message})
             return False
 
     def result(self):
@@ -416,6 +426,8 @@ def run_property(prop, tier, master_seed, only_sub=None, jobs=None, log=None, de
         "assumptions": getattr(mod, "ASSUMPTIONS", []),
         "wall_s": round(wall, 2), "violations": nviol,
     }
+    for e in errors:
+        sys.stderr.write("[%s] harness error in %s\n" % (prop, e))
     code = 0
     if nviol:
         code = 1
